@@ -5,7 +5,7 @@ from vt import defs
 from vt.choice import ReplayChooser
 from vt.env import Env, Policy, Violation
 from vt.harness import kernels
-from vt.harness.common import ob
+from vt.harness.common import control_slices, ob
 from vt.monitors import C12Items
 
 FUNCTIONS = ["orquesta.conducting.WorkflowConductor._evaluate_task_actions (E1, concurrency unbounded)", "machines.TaskStateMachine item events, update_task_state, get_next_tasks (E2c)"]
@@ -55,7 +55,7 @@ def confirm(ob_, cex):
 
 def obligations(tier):
     obs = [kernels.e1("C12", "window_kernel", "window_kernel", timeout=900)]
-    cases = [(3, None, False), (3, 1, False), (3, 2, False), (3, 0, False), (3, -1, False), (3, 2, True), (0, None, False), (0, 2, False), (1, 1, False), (4, 2, False), (4, 3, False), (2, 5, False)]
+    cases = [(3, None, False), (3, 1, False), (3, 2, False), (3, 0, False), (3, -1, True), (3, 0, True), (3, 2, True), (0, None, False), (0, 2, False), (1, 1, False), (4, 2, False), (4, 3, False), (2, 5, False)]
     for n, k, ex in cases:
         o = ob("C12", "e2c.n%d.k%s%s" % (n, k, "x" if ex else ""), "vt.harness.C12:items", {"n": n, "conc": k, "conc_expr": ex, "steps": n + 2}, timeout=900)
         if n:
@@ -66,6 +66,6 @@ def obligations(tier):
         o["antecedents"] = ["c12_item_offers"]
         obs.append(o)
     o = ob("C12", "e2c.sib.n3.k2", "vt.harness.C12:items", {"n": 3, "conc": 2, "sibling": True, "steps": 6, "control": "either"}, timeout=1200)
-    obs.append(o)
+    obs.extend(control_slices(o, 7))
     obs.append(ob("C12", "twin.n3", "vt.harness.C12:items", {"n": 3, "conc": 2, "steps": 5, "twin": True}, timeout=60))
     return obs
